@@ -17,3 +17,6 @@ open Amoco.Loader.Props
 #print axioms block_present
 #print axioms pe_section_bytes
 #print axioms macho_segment_bytes
+#print axioms relocate_image
+#print axioms joinRaw_prefix
+#print axioms fetch_mapped
